@@ -474,6 +474,40 @@ class ManualRegister(FnSpec):
         return out
 
 
+class GroupContains(FnSpec):
+    file = "plugin/interface.py"
+    qual = "PluginGroup.__contains__"
+    props = ("C16",)
+
+    def init(self):
+        self.bindings["plugin_args"] = lambda cx, key, *r: STuple((cx.run_args.kname, cx.run_args.kver))
+
+    def setup(self, cx):
+        from pyvc.values import SMaybe
+
+        g = group_obj(cx)
+        a = A(self=g, key=SStr.fresh("key"))
+        a.kname = SStr.fresh("key_name")
+        a.kver = SMaybe(z3.Bool("key_has_no_version"), STuple(tuple(SInt.fresh(f"kv{i}") for i in range(3))))
+        cx.run_args = a
+        return a
+
+    def raises(self, cx, a):
+        return {}
+
+    def ensures(self, cx, a, res):
+        vm = a.self.fields["_VERSIONS"]
+        name = a.kname.t
+        L = LST(vm.get_term(name))
+        i = z3.Int("ci")
+        r = SRef("PluginRef", L.at_term(i))
+        gk, nk, vk = key_terms(r, cx)
+        same = z3.And(gk == a.self.fields["gname"].t, nk == name, *[v == x.t for v, x in zip(vk, a.kver.val.items)])
+        listed_some = z3.And(vm.has(name), L.n > 0)
+        want = z3.If(a.kver.isnone, listed_some, z3.And(listed_some, z3.Exists([i], z3.And(0 <= i, i < L.n, same))))
+        return [("name-listed-and-that-version-registered", is_bool_eq(res, want), "`name in group` holds iff some version of the name is registered; `(name, version) in group` iff exactly that version is (equality of references is equality of (group, name, version))")]
+
+
 class Versions(FnSpec):
     file = "plugin/interface.py"
     qual = "PluginGroup.versions"
@@ -681,6 +715,7 @@ def build(reg):
     reg.attr_bindings[("PluginGroup", "name")] = lambda cx, o: o.fields["gname"]
     reg.attr_bindings[("PluginGroup", "PluginRef")] = lambda cx, o: make_ref_ctor(lambda cx2: o.fields["gname"].t)
     reg.elem_order["PluginRef"] = key_lt
+    reg.elem_eq["PluginRef"] = key_eq  # EqSpec, proved below
     reg.set_class_home("PluginGroupForGet", "plugin/interface.py", "PluginGroup")
 
     def get_unsafe(cx, g, name, version=None):
@@ -692,7 +727,7 @@ def build(reg):
         return PluginCls(cid)
 
     reg.method_bindings[("PluginGroupForGet", "_get_unsafe")] = get_unsafe
-    specs = [EqSpec(), GeSpec(), SupportsSpec(), HashSpec(), GtFromGe(), LeFromGe(), LtFromGe(), AddEp(), ManualRegister(), Versions(), Resolve(), GroupGet()]
+    specs = [EqSpec(), GeSpec(), SupportsSpec(), HashSpec(), GtFromGe(), LeFromGe(), LtFromGe(), AddEp(), ManualRegister(), Versions(), Resolve(), GroupGet(), GroupContains()]
     for s in specs + [HasNamespace()]:
         reg.add(s)
     specs = specs + epnames.add_epnames(reg, FromEpName)
